@@ -192,6 +192,11 @@ def guess_type(self: Obj("ConfigManager"), config_path: Str) -> Opt(Int):
                     and implies(result == TYPE_JSON, n_events("keyval.reverse") == 1 and n_events("json.reverse") == 1
                                 and truthy(event_result("json.reverse", 0)) and event_arg("json.reverse", 0, 0) == event_result("read", 0))
                     and (is_none(result) or result == TYPE_KEYVAL or result == TYPE_JSON)))
+    # ... and the FIRST format that parses is the answer (a successful parse is never ignored)
+    ensures(implies(ext_of(config_path) != "json" and ext_of(config_path) != "yo" and n_events("keyval.reverse") >= 1
+                    and not event_raised("keyval.reverse", 0) and truthy(event_result("keyval.reverse", 0)), result == TYPE_KEYVAL))
+    ensures(implies(ext_of(config_path) != "json" and ext_of(config_path) != "yo" and n_events("json.reverse") >= 1
+                    and not event_raised("json.reverse", 0) and truthy(event_result("json.reverse", 0)), result == TYPE_JSON))
     ensures(n_events("write") == 0 and n_events("remove") == 0 and n_events("replace") == 0)
     propagates("open")
     propagates("read")
